@@ -30,34 +30,53 @@ def _str_const(node, what):
     raise Err("%s: expected a string literal, found %s" % (what, ast.unparse(node)[:60]))
 
 
-def _branch_kind(body, suffix):
-    """Classify an `elif name.endswith(S):` body by what it stores where."""
+def _branch_kind(body, suffix, namevar):
+    """Classify an `elif <name>.endswith(S):` body by what it stores where (local variable names
+    are free; what matters is: removesuffix(S) of the member name is the key, which dictionary is
+    stored into, which loader parses the content, and whether decrypt() is applied first)."""
     first = body[0]
-    if not (isinstance(first, ast.Assign) and ast.unparse(first.targets[0]) == "deploy_name"
-            and isinstance(first.value, ast.Call) and ast.unparse(first.value.func) == "name.removesuffix"
+    if not (isinstance(first, ast.Assign) and len(first.targets) == 1 and isinstance(first.targets[0], ast.Name)
+            and isinstance(first.value, ast.Call) and ast.unparse(first.value.func) == namevar + ".removesuffix"
             and len(first.value.args) == 1 and _str_const(first.value.args[0], "removesuffix") == suffix):
-        raise Err("branch for %r does not start with deploy_name = name.removesuffix(%r)" % (suffix, suffix))
+        raise Err("branch for %r does not start with <key> = %s.removesuffix(%r)" % (suffix, namevar, suffix))
+    keyvar = first.targets[0].id
     stores = [n for n in body if isinstance(n, ast.Assign) and isinstance(n.targets[0], ast.Subscript)]
-    if len(stores) != 1 or ast.unparse(stores[0].targets[0].slice) != "deploy_name":
-        raise Err("branch for %r: expected exactly one store X[deploy_name] = ..." % suffix)
+    if len(stores) != 1 or ast.unparse(stores[0].targets[0].slice) != keyvar:
+        raise Err("branch for %r: expected exactly one store X[%s] = ..." % (suffix, keyvar))
     target = ast.unparse(stores[0].targets[0].value)
-    value = ast.unparse(stores[0].value)
-    src = "\n".join(ast.unparse(n) for n in body)
-    uses_decrypt = "decrypt(content, encryption_password)" in src
+    v = stores[0].value
+    if not (isinstance(v, ast.Call) and len(v.args) == 1 and not v.keywords):
+        raise Err("branch for %r: stored value is not loader(<bytes>)" % suffix)
+    loader = ast.unparse(v.func)
+    decrypts = [n for n in ast.walk(ast.Module(body=body, type_ignores=[]))
+                if isinstance(n, ast.Call) and ast.unparse(n.func) == "decrypt"]
+    if len(decrypts) > 1:
+        raise Err("branch for %r: more than one decrypt()" % suffix)
+    if decrypts:
+        d = decrypts[0]
+        if len(d.args) != 2 or ast.unparse(d.args[1]) != "encryption_password":
+            raise Err("branch for %r: decrypt() not called with the given password" % suffix)
+        holders = [n for n in body if isinstance(n, ast.Assign) and n.value is d]
+        if len(holders) != 1 or ast.unparse(holders[0].targets[0]) != ast.unparse(v.args[0]):
+            raise Err("branch for %r: the decrypted bytes are not what is parsed" % suffix)
     table = {
-        ("secret_files", "yaml.safe_load(decrypted)", True): "secret_enc",
-        ("secret_files", "yaml.safe_load(content)", False): "secret_yaml",
-        ("cr_files", "yaml.safe_load(content)", False): "cr",
-        ("meta_files", "json.loads(content)", False): "meta",
+        ("secret_files", "yaml.safe_load", True): "secret_enc",
+        ("secret_files", "yaml.safe_load", False): "secret_yaml",
+        ("cr_files", "yaml.safe_load", False): "cr",
+        ("meta_files", "json.loads", False): "meta",
     }
-    k = table.get((target, value, uses_decrypt))
+    k = table.get((target, loader, bool(decrypts)))
     if k is None:
-        raise Err("branch for %r: unrecognised store %s[deploy_name] = %s" % (suffix, target, value))
+        raise Err("branch for %r: unrecognised store %s[...] = %s(...)%s"
+                  % (suffix, target, loader, " after decrypt" if decrypts else ""))
     if k == "secret_enc":
         guard = [n for n in body if isinstance(n, ast.If)]
         if len(guard) != 1 or ast.unparse(guard[0].test) != "encryption_password is None" \
                 or not any(isinstance(x, ast.Raise) for x in guard[0].body):
             raise Err("encrypted branch: expected `if encryption_password is None: raise ValueError`")
+    for n in body:
+        if isinstance(n, (ast.Try, ast.With, ast.For, ast.While)):
+            raise Err("branch for %r: unexpected compound statement" % suffix)
     return k
 
 
@@ -67,15 +86,17 @@ def extract(src):
     loops = [n for n in ast.walk(rd) if isinstance(n, ast.For) and ast.unparse(n.iter) == "tar.getmembers()"]
     if len(loops) != 1:
         raise Err("read_backup_archive: expected one loop over tar.getmembers()")
-    chain = [n for n in loops[0].body if isinstance(n, ast.If) and "name" in ast.unparse(n.test)
-             and ("==" in ast.unparse(n.test) or "endswith" in ast.unparse(n.test))]
+    chain = [n for n in loops[0].body if isinstance(n, ast.If) and isinstance(n.test, ast.Compare)
+             and len(n.test.ops) == 1 and isinstance(n.test.ops[0], ast.Eq) and isinstance(n.test.left, ast.Name)
+             and isinstance(n.test.comparators[0], ast.Constant) and isinstance(n.test.comparators[0].value, str)]
     if len(chain) != 1:
-        raise Err("read_backup_archive: expected one if/elif chain on the member name")
+        raise Err("read_backup_archive: expected one if/elif chain starting with <name> == <manifest file name>")
     node = chain[0]
     t = node.test
-    if not (isinstance(t, ast.Compare) and ast.unparse(t.left) == "name" and len(t.ops) == 1
-            and isinstance(t.ops[0], ast.Eq)):
-        raise Err("read_backup_archive: the first test must be name == <manifest file name>")
+    namevar = t.left.id
+    binds = [n for n in loops[0].body if isinstance(n, ast.Assign) and ast.unparse(n.targets[0]) == namevar]
+    if len(binds) != 1 or not ast.unparse(binds[0].value).endswith(".name"):
+        raise Err("read_backup_archive: %s is not bound to the member's name" % namevar)
     manifest_name = _str_const(t.comparators[0], "manifest name")
     dispatch = []
     while True:
@@ -85,10 +106,10 @@ def extract(src):
             raise Err("read_backup_archive: trailing else branch in the suffix dispatch — unknown shape")
         node = node.orelse[0]
         t = node.test
-        if not (isinstance(t, ast.Call) and ast.unparse(t.func) == "name.endswith" and len(t.args) == 1):
+        if not (isinstance(t, ast.Call) and ast.unparse(t.func) == namevar + ".endswith" and len(t.args) == 1):
             raise Err("read_backup_archive: unexpected test %s in the suffix dispatch" % ast.unparse(t)[:60])
         suffix = _str_const(t.args[0], "endswith")
-        dispatch.append((suffix, _branch_kind(node.body, suffix)))
+        dispatch.append((suffix, _branch_kind(node.body, suffix, namevar)))
     if not dispatch:
         raise Err("read_backup_archive: empty suffix dispatch")
 
